@@ -73,14 +73,16 @@ Definition two63 : Z := 9223372036854775808.
 Definition clip64 (z : Z) : Z := if (z <? - two63) || (two63 <=? z) then int64_min else z.
 
 (* np.floor(x).astype(int) : out-of-range and non-finite values give the x86 "integer indefinite" *)
-Definition rfloor (r : real) : Z :=
+Definition rfloor_exact (r : real) : option Z :=
   match r with
-  | S754_zero _ => 0
+  | S754_zero _ => Some 0
   | S754_finite s m e =>
       let v := if s then Zneg m else Zpos m in
-      clip64 (if 0 <=? e then v * 2 ^ e else v / 2 ^ (- e))
-  | _ => int64_min
+      Some (if 0 <=? e then v * 2 ^ e else v / 2 ^ (- e))
+  | _ => None
   end.
+Definition rfloor (r : real) : Z :=
+  match rfloor_exact r with Some z => clip64 z | None => int64_min end.
 
 Definition bits_of_real (r : real) : Z :=
   match r with
@@ -229,6 +231,13 @@ Fixpoint join_strs (l : list val) : result (list Z) :=
   end.
 Definition joined (l : list val) : res := bind (join_strs l) (fun s => Ok (VS s)).
 
+(* the shape NumPy sees: rect -> its shape, object array -> [len] *)
+Definition npshape (v : val) : option (list nat) :=
+  match v with
+  | VL l => match rshape v with Some s => Some s | None => Some [List.length l] end
+  | _ => None
+  end.
+
 (* ------------------------------------------------------------------ NumPy broadcasting
    bc elem da db a b : a, b seen as arrays of da / db dimensions (their members below that are scalars
    to NumPy); shapes are aligned at the TRAILING dimension, a dimension of 1 is stretched. *)
@@ -263,24 +272,30 @@ Inductive objmode := ObjRec   (* object loop calls the Python operator, which re
                    | ObjNone. (* fmod: no object loop, raises *)
 
 (* np.<ufunc>(a, b) called directly on the operands *)
-Fixpoint np2 (fuel : nat) (mode : objmode) (sf : val -> val -> res) (a b : val) : res :=
+Fixpoint np2 (fuel : nat) (mode : objmode) (sf sfpy : val -> val -> res) (a b : val) : res :=
   match fuel with
   | O => NoFuel
   | S fuel' =>
       if (is_obj a || is_obj b) && (match mode with ObjNone => true | _ => false end) then Err else
+      (* a str operand becomes a '<U' array: whether a loop exists depends on the other operand's dtype *)
+      if is_strlike a || is_strlike b then Unmod else
       bcast (fun x y =>
                if is_arr x || is_arr y then
                  match mode with
-                 | ObjRec => np2 fuel' mode sf x y
+                 | ObjRec => np2 fuel' mode sf sfpy x y
                  | ObjCmp => if (array_size x =? 1) && (array_size y =? 1) then Unmod else Err
                  | ObjNone => Err
                  end
+               else if is_obj a || is_obj b then sfpy x y   (* members of object arrays are Python scalars *)
                else sf x y)
             (npdepth a) (npdepth b) a b
   end.
 
 (* leaf of vec_fn2: neither operand is an object array; f is a NumPy-vectorised scalar function *)
 Definition leaf2 (sf : val -> val -> res) (a b : val) : res := bcast sf (rdepth a) (rdepth b) a b.
+(* the same for leaf functions that call a numeric ufunc (np.less, np.divide): a str against an array is not modelled *)
+Definition leaf2n (sf : val -> val -> res) (a b : val) : res :=
+  if (is_strlike a && is_arr b) || (is_arr a && is_strlike b) then Unmod else leaf2 sf a b.
 
 (* BackendProvider.vec_fn2 ; every list of results goes through kg_asarray (norm) *)
 Fixpoint vec2 (fuel : nat) (leaf : val -> val -> res) (a b : val) : res :=
@@ -357,6 +372,13 @@ Definition sc_div (a b : val) : res :=
   | Some x, Some y => Ok (VR (rdiv x y))
   | _, _ => Unmod
   end.
+(* Python's / on int and float: a zero divisor raises ZeroDivisionError *)
+Definition sc_div_py (a b : val) : res :=
+  match b with
+  | VI 0 => Err
+  | VR r => if is_real_zero r then Err else sc_div a b
+  | _ => sc_div a b
+  end.
 (* np.fmod on int64: C remainder, truncated; a zero divisor gives 0 *)
 Definition sc_fmod (a b : val) : res :=
   match a, b with
@@ -420,18 +442,18 @@ Definition both_atoms_zero_divisor (a b : val) : bool :=
   negb (is_arr a) && negb (is_arr b) &&
   match b with VI y => y =? 0 | VR y => is_real_zero y | _ => false end.
 
-Definition m_add (a b : val) : res := np2 (fuel2 a b) ObjRec sc_add a b.
-Definition m_sub (a b : val) : res := np2 (fuel2 a b) ObjRec sc_sub a b.
-Definition m_mul (a b : val) : res := np2 (fuel2 a b) ObjRec sc_mul a b.
-Definition m_min (a b : val) : res := np2 (fuel2 a b) ObjCmp sc_min a b.
-Definition m_max (a b : val) : res := np2 (fuel2 a b) ObjCmp sc_max a b.
-Definition m_rem (a b : val) : res := np2 (fuel2 a b) ObjNone sc_fmod a b.
+Definition m_add (a b : val) : res := np2 (fuel2 a b) ObjRec sc_add sc_add a b.
+Definition m_sub (a b : val) : res := np2 (fuel2 a b) ObjRec sc_sub sc_sub a b.
+Definition m_mul (a b : val) : res := np2 (fuel2 a b) ObjRec sc_mul sc_mul a b.
+Definition m_min (a b : val) : res := np2 (fuel2 a b) ObjCmp sc_min sc_min a b.
+Definition m_max (a b : val) : res := np2 (fuel2 a b) ObjCmp sc_max sc_max a b.
+Definition m_rem (a b : val) : res := np2 (fuel2 a b) ObjNone sc_fmod sc_fmod a b.
 Definition m_div (a b : val) : res :=
-  if both_atoms_zero_divisor a b then Ok VU else np2 (fuel2 a b) ObjRec sc_div a b.
+  if both_atoms_zero_divisor a b then Ok VU else np2 (fuel2 a b) ObjRec sc_div sc_div_py a b.
 Definition m_idiv (a b : val) : res :=
-  if both_atoms_zero_divisor a b then Ok VU else vec2 (fuel2 a b) (leaf2 sc_idiv) a b.
-Definition m_less (a b : val) : res := vec2 (fuel2 a b) (leaf2 sc_less) a b.
-Definition m_more (a b : val) : res := vec2 (fuel2 a b) (leaf2 sc_more) a b.
+  if both_atoms_zero_divisor a b then Ok VU else vec2 (fuel2 a b) (leaf2n sc_idiv) a b.
+Definition m_less (a b : val) : res := vec2 (fuel2 a b) (leaf2n sc_less) a b.
+Definition m_more (a b : val) : res := vec2 (fuel2 a b) (leaf2n sc_more) a b.
 Definition m_equal (a b : val) : res := vec2 (fuel2 a b) (leaf2 sc_equal) a b.
 
 (* ------------------------------------------------------------------ atomic monads *)
@@ -453,7 +475,7 @@ Definition m_recip (a : val) : res :=
   end.
 
 Definition sc_char (a : val) : res :=
-  match a with VI x => if (0 <=? x) && (x <? 1114112) then Ok (VC x) else Err | _ => Unmod end.
+  match a with VI x => if (0 <=? x) && (x <? 1114112) then Ok (VC x) else Err | VL _ => Err | _ => Unmod end.
 (* rec_fn: `_is_list` — a non-empty array recurses (results through kg_asarray), anything else is given to f *)
 Fixpoint rec1 (fuel : nat) (f : val -> res) (a : val) : res :=
   match fuel with
@@ -524,6 +546,7 @@ Fixpoint expand_from (i : nat) (l : list val) : result (list val) :=
   end.
 Definition m_expand (a : val) : res :=
   match a with
+  | VL [] => Err     (* np.repeat(arange(0), float64 []) cannot cast the repeat counts *)
   | VL l => if (npdepth a =? 1)%nat then okl (expand_from 0 l) else Unmod
   | VI _ => okl (expand_from 0 [a])
   | _ => Unmod
@@ -671,13 +694,16 @@ Definition m_split (a b : val) : res :=
           match ints_of al with
           | Some [a0] =>
               if zlen l <=? a0 then segs j [l]
-              else if a0 <=? 0 then (if a0 =? 0 then Err else Unmod)
+              else if split_by_segment_size && (a0 =? 0) then Err            (* range() arg 3 must not be zero *)
+              else if split_by_segment_size && (a0 <? 0) then segs j [l]     (* empty range: one segment *)
               else if split_by_segment_size
                 then segs j (split_at 0 (multiples (List.length l) (Z.to_nat a0) (Z.to_nat a0) (List.length l)) l)
                 else
-                  let k := zlen l / a0 in
+                  (* a0 is a Python int when a is an atom (ZeroDivisionError), a NumPy int64 when a is an array (x // 0 = 0) *)
+                  if (a0 =? 0) && negb (is_arr a) then Err else
+                  let k := if a0 =? 0 then 0 else zlen l / a0 in
                   let k := if k * a0 <? zlen l then k + 1 else k in
-                  segs j (array_split_n (Z.to_nat k) l)
+                  if k <=? 0 then Err else segs j (array_split_n (Z.to_nat k) l)
           | Some [] => Err
           | Some sizes => bind (split_loop (S (2 * List.length l + List.length sizes)) sizes sizes l) (segs j)
           | None => Unmod
@@ -719,7 +745,12 @@ Definition m_join (a b : val) : res :=
   | _, _, _, _ =>
       let aa := match a with VL la => la | _ => [a] end in
       let bb := match b with VL lb => lb | _ => [b] end in
-      Ok (norm (VL (aa ++ bb)))
+      let r := aa ++ bb in
+      let shapes := map npshape r in
+      (* np.concatenate of arrays whose trailing shapes differ, and the final unprotected
+         np.asarray(r, dtype=object) on member arrays of equal length but different shape, raise ValueError *)
+      if all_lists_same_len r && negb (forallb (fun sh => shape_eqb sh (hd None shapes)) shapes) then Err
+      else Ok (norm (VL r))
   end.
 
 (* a[i] with Python's negative indices *)
@@ -828,7 +859,12 @@ Definition m_find (a b : val) : res :=
           if (1 <? npdepth a)%nat then Unmod
           else okl (positions 0 (fun x => match x with
                                           | VL _ => Unmod
-                                          | _ => match sc_equal x b with Ok (VI 1) => Ok true | Ok _ => Ok false | _ => Unmod end
+                                          | _ =>
+                                              match text_of b with
+                                              | Some t =>   (* b goes through a '<U' array and comes back as a plain str *)
+                                                  Ok (match x with VC c => zs_eqb [c] t | VS s => zs_eqb s t | _ => false end)
+                                              | None => match sc_equal x b with Ok (VI 1) => Ok true | Ok _ => Ok false | _ => Unmod end
+                                              end
                                           end) l)
       end
   | _ => Unmod
@@ -850,8 +886,14 @@ Fixpoint cycle_take (fuel : nat) (n : nat) (src cur : list val) : list val :=
 Definition cyc (n : nat) (src : list val) : list val := cycle_take O n src src.
 
 Definition m_reshape (a b : val) : res :=
-  let j := match b with VS _ => true | _ => false end in
-  let b' := match b with VS s => VL (chars s) | _ => b end in
+  (* j = isinstance(b, str): strings, characters and symbols (KGChar, KGSym are str) become character arrays;
+     reshape_guards_symbols: the fix: commit excludes KGSym *)
+  let j := match b with VS _ | VC _ => true | VY _ => negb reshape_guards_symbols | _ => false end in
+  let b' := match b with
+            | VS s => VL (chars s)
+            | VC c => VL [VC c]
+            | VY s => if reshape_guards_symbols then b else VL (chars s)
+            | _ => b end in
   match a with
   | VL la =>
       match ints_of la with
@@ -863,7 +905,6 @@ Definition m_reshape (a b : val) : res :=
               let zs := map (fun z => if z <? 0 then bs / 2 else z) zs in
               match nats_of zs with
               | Some shape =>
-                  let a_s := Z.of_nat (prodn shape) in
                   let fl := np_flat b' in
                   if bs =? 0 then Unmod
                   else
@@ -877,7 +918,10 @@ Definition m_reshape (a b : val) : res :=
                     else Ok r
               | None => Unmod
               end
-          | VY _ => Unmod
+          | VY _ =>
+              if reshape_guards_symbols
+              then (match nats_of zs with Some shape => Ok (build shape (repeat b' (prodn shape))) | None => Err end)
+              else Unmod
           | _ =>
               match nats_of zs with
               | Some shape => Ok (build shape (repeat b' (prodn shape)))
@@ -887,7 +931,7 @@ Definition m_reshape (a b : val) : res :=
       | None => Unmod
       end
   | VI n =>
-      if n =? 0 then Ok b
+      if n =? 0 then (match b' with VL lb => rejoin j lb | _ => Ok b end)
       else if n <? 0 then Unmod
       else
         match b' with
@@ -895,13 +939,13 @@ Definition m_reshape (a b : val) : res :=
             match lb with
             | [] => Unmod
             | _ =>
+                if array_size b' =? 0 then Unmod else
                 if n <? zlen lb
                 then (* np.resize(b, (a,)) flattens *)
                   let r := cyc (Z.to_nat n) (np_flat b') in rejoin j r
                 else rejoin j (cyc (Z.to_nat n) lb)
             end
-        | VY s => if reshape_guards_symbols then Ok (VL (repeat b' (Z.to_nat n))) else Ok (VS (List.concat (repeat s (Z.to_nat n))))
-        | VC c => Ok (VS (repeat c (Z.to_nat n)))
+        | VY _ => if reshape_guards_symbols then Ok (VL (repeat b' (Z.to_nat n))) else Unmod
         | _ => Ok (VL (repeat b' (Z.to_nat n)))
         end
   | _ => Unmod
